@@ -385,8 +385,9 @@ class ScipyOptimizeDriver(Driver):
                             # TODO add option for Hessian
                             # Double-sided constraints are accepted by the algorithm
                             args = [name, False, j]
-                            lb_j = np.maximum(lb[j], -INF_BOUND)
-                            ub_j = np.minimum(ub[j], INF_BOUND)
+                            # a side without a bound is infinite for scipy, not a finite bound of 1e30
+                            lb_j = -np.inf if lb[j] <= -INF_BOUND else lb[j]
+                            ub_j = np.inf if ub[j] >= INF_BOUND else ub[j]
                             con = NonlinearConstraint(
                                 fun=signature_extender(
                                     WeakMethodWrapper(self, '_con_val_func'), args),
